@@ -505,6 +505,16 @@ class _YieldToAdd(ast.NodeTransformer):
         if isinstance(node.value, ast.Yield):
             v = node.value.value if node.value.value is not None else \
                 ast.Constant(value=None)
+            if self.method == 'setitem':
+                # dict(gen()): each yielded (key, value) pair is stored
+                if not (isinstance(v, ast.Tuple) and len(v.elts) == 2):
+                    self.failed = True
+                    return node
+                asg = ast.Assign(targets=[ast.Subscript(
+                    value=ast.Name(id=self.target, ctx=ast.Load()),
+                    slice=v.elts[0], ctx=ast.Store())], value=v.elts[1])
+                return ast.fix_missing_locations(
+                    ast.copy_location(asg, node))
             call = ast.Call(func=ast.Attribute(
                 value=ast.Name(id=self.target, ctx=ast.Load()),
                 attr=self.method, ctx=ast.Load()), args=[v], keywords=[])
@@ -542,8 +552,12 @@ def expand_collected(fn, call, kind, target):
         if nm not in names:
             names[nm] = '%s__i%d' % (nm, k)
     rn = _Rename(names, exprs)
-    ya = _YieldToAdd(target, 'add' if kind == 'set' else 'append')
+    ya = _YieldToAdd(target, {'set': 'add', 'dict': 'setitem'}.get(
+        kind, 'append'))
+    ya.failed = False
     new_body = [ya.visit(rn.visit(copy_node(s))) for s in body]
+    if ya.failed:
+        return None
     init = ast.Assign(
         targets=[ast.Name(id=target, ctx=ast.Store())],
         value=ast.Call(func=ast.Name(id=kind, ctx=ast.Load()), args=[],
@@ -924,7 +938,7 @@ def _expand_stmt(st, defs, cms, owner):
             st.targets[0], ast.Name) and isinstance(
                 st.value, ast.Call) and isinstance(
                     st.value.func, ast.Name) and st.value.func.id in (
-                        'set', 'list') and len(st.value.args) == 1 and \
+                        'set', 'list', 'dict') and len(st.value.args) == 1 and \
             not st.value.keywords and isinstance(
                 st.value.args[0], ast.Call) and isinstance(
                     st.value.args[0].func, ast.Name) and \
